@@ -47,6 +47,54 @@ def random_universe(rnd, npaths, nvers):
     return req, paths
 
 
+def rich_universe(rnd):
+    """Projects with patch releases and untagged revisions (pseudo-versions): version numbers are
+    100*minor + 10*patch (+5 for the untagged revision that follows that tag)."""
+    names = ["a", "b", "c", "d"][: rnd.randrange(2, 5)]
+    paths = {}
+    for p in names + ([names[0] + "@v2"] if rnd.random() < 0.3 else []):
+        ns = []
+        for minor in range(1, rnd.randrange(1, 4) + 1):
+            for patch in range(0, rnd.randrange(0, 3) + 1):
+                ns.append(100 * minor + 10 * patch)
+                if rnd.random() < 0.35:
+                    ns.append(100 * minor + 10 * patch + 5)
+        paths[p] = ns
+    req = {}
+    for p, ns in paths.items():
+        for n in ns:
+            rs = []
+            for q, ms in paths.items():
+                if q != p and rnd.random() < 0.4:
+                    rs.append("%s/%d" % (q, rnd.choice(ms)))
+            rnd.shuffle(rs)
+            req["%s/%d" % (p, n)] = rs
+    return req, paths
+
+
+def rich_ops(rnd, paths):
+    ops = [{"kind": "tidy", "path": "", "q": {"kind": "", "n": 0}}, {"kind": "upgradeall", "path": "", "q": {"kind": "", "n": 0}}]
+    kinds = ["latest", "exact", "lt", "le", "gt", "ge", "upgrade", "patch", "ref", "ref", "patch"]
+
+    def get(p, k):
+        tagged = [n for n in paths[p] if n % 10 == 0]
+        n = rnd.choice(paths[p]) if k == "ref" else rnd.choice(tagged + [max(tagged) + 100])
+        return {"kind": "get", "path": p, "q": {"kind": k, "n": n}}
+
+    for _ in range(5):
+        p = rnd.choice(sorted(paths))
+        ops.append(get(p, rnd.choice(kinds)))
+        if rnd.random() < 0.7:
+            # a second operation on the result of the first: sequences of get / tidy / upgrade
+            first = len(ops)
+            nxt = rnd.choice(["patch", "upgrade", "latest", "ref", "tidy", "upgradeall", "le"])
+            if nxt in ("tidy", "upgradeall"):
+                ops.append({"kind": nxt, "path": "", "q": {"kind": "", "n": 0}, "from": first})
+            else:
+                ops.append(dict(get(p if rnd.random() < 0.7 else rnd.choice(sorted(paths)), nxt), **{"from": first}))
+    return ops
+
+
 def tla_universe(req, roots):
     nodes = sorted(req)
     body = " [] ".join('x = "%s" -> <<%s>>' % (n, ", ".join('"%s"' % r for r in req[n])) for n in nodes)
@@ -102,6 +150,24 @@ def pipeline(tier):
         cases.append(c)
         if i < (60 if quick else 400):
             design.append(tla_universe(req, roots))
+    for i in range(250 if quick else 4000):
+        req, paths = rich_universe(rnd)
+        roots = []
+        for p in rnd.sample(sorted(paths), rnd.randrange(1, min(3, len(paths)) + 1)):
+            roots.append("%s/%d" % (p, rnd.choice(paths[p])))
+        c = {"id": "rich-%d" % i, "u": {"req": req}, "roots": roots, "ops": rich_ops(rnd, paths)}
+        if i % 2:
+            c["host"] = "github"      # one repository of a well-known hosting service holding all projects
+        cases.append(c)
+        if i < (40 if quick else 300):
+            design.append(tla_universe(req, roots))
+    # the history of the documentation of 'get': a branch ahead of the last tag, then @patch
+    req = {"p/120": [], "p/125": [], "q/100": ["p/120"]}
+    cases.append({"id": "rich-doc", "u": {"req": req}, "roots": ["p/120", "q/100"],
+                  "ops": [{"kind": "get", "path": "p", "q": {"kind": "ref", "n": 125}},
+                          {"kind": "get", "path": "p", "q": {"kind": "patch", "n": 0}, "from": 1},
+                          {"kind": "get", "path": "p", "q": {"kind": "upgrade", "n": 0}, "from": 1},
+                          {"kind": "get", "path": "p", "q": {"kind": "ref", "n": 120}, "from": 1}]})
     body = "---- MODULE MCMvsGen ----\nEXTENDS MVS\nMCU == {\n  " + ",\n  ".join(design) + "\n}\n====\n"
     cfg = "SPECIFICATION Spec\nCONSTANT Universes <- MCU\nINVARIANT OrderIndependent\nPROPERTY Terminates\n"
     rc, out, _ = vlib.tlc(SPEC, "MCMvsGen", cfg="MCMvsGen.cfg", workers=16, timeout=2400, heap="8g",
@@ -152,9 +218,9 @@ def check(prop, tier):
            "universes_model_checked": res["design"]["universes"], "universes_executed": res["universes"],
            "evaluations": n, "distinct_nontrivial": res["universes"], "exhaustive": False,
            "operations_that_returned_an_error": res["op_errors"],
-           "rule": "seeded sample of all universes over {a/1 a/2 b/1 b/2 a@v2/1} (each version requiring at most one version of each other project, cycles included) with 5 root sets, plus random universes of 2-5 projects x 1-4 versions (+ a v2 major); each resolved with a cold cache, a warm cache and a fresh cache under shuffled declaration order; tidy, upgrade-all and get queries (latest, exact, <, <=, >, >=, upgrade, patch) each applied twice; distinct = distinct universes",
+           "rule": "seeded sample of all universes over {a/1 a/2 b/1 b/2 a@v2/1} (each version requiring at most one version of each other project, cycles included) with 5 root sets, plus random universes of 2-5 projects x 1-4 versions (+ a v2 major); each resolved with a cold cache, a warm cache and a fresh cache under shuffled declaration order; tidy, upgrade-all and get queries (latest, exact, <, <=, >, >=, upgrade, patch, ref) each applied twice; universes with patch releases and untagged revisions (pseudo-versions, branch refs) and two-operation sequences; distinct = distinct universes",
            "family_wall_s": round(res["wall_s"], 1)}
     assumptions = ["github.com/pgavlin/mvs (the generic MVS algorithms) is part of the system under test; golang.org/x/mod/semver is trusted",
-                   "versions are vN.n.0 tags; pseudo-versions and ref queries are not judged"]
+                   "a ref query denotes the tag on the named revision or else the pseudo-version based on the closest tagged ancestor"]
     return vlib.conclude(prop, tier, level, cov, t0, viols, assumptions,
                          lambda v: {"family": "mvs", "property": prop, "violation": {k: v[k] for k in ("prop", "what", "x", "id", "universe", "event")}})
